@@ -28,12 +28,14 @@ type Op struct {
 // Case is a generated history plus schedule.
 type Case struct {
 	Container bool   `json:"container"`
+	PreRes    string `json:"preres,omitempty"` // user-made promises come from NewPromiseWithResult: "" (no) | val | custom | canceled
 	Ops       []Op   `json:"ops"`
 	Sched     []byte `json:"sched"`
 }
 
 func genCase(t *rapid.T) Case {
 	c := Case{Container: rapid.Bool().Draw(t, "container")}
+	c.PreRes = rapid.SampledFrom([]string{"", "", "", "", "", "val", "custom", "canceled"}).Draw(t, "preres")
 	kinds := []string{"set", "set", "await", "await", "await", "cancel", "fire"}
 	if c.Container {
 		kinds = []string{"set", "set", "await", "await", "await", "cancel", "fire", "setpromise", "setpromise", "setresult"}
@@ -107,8 +109,9 @@ func run11(t *testing.T, cs Case) *ev.Verdict {
 	v := &ev.Verdict{}
 	canon, _ := json.Marshal(struct {
 		C   bool
+		P   string
 		Ops []Op
-	}{cs.Container, cs.Ops})
+	}{cs.Container, cs.PreRes, cs.Ops})
 	v.Canon = string(canon)
 	c, berr := sched.Run(t, []string{"broadcast.lock", "broadcast.unlocked", "promise.set", "promise.set.mid"}, cs.Sched, func(c *sched.Ctl) { body11(c, cs, v) })
 	v.Trace = c.Trace()
@@ -141,8 +144,29 @@ func body11(c *sched.Ctl, cs Case, v *ev.Verdict) {
 		vm.Unlock()
 	}
 	var proms []*prom
+	nextVal := 0
+	type intent struct {
+		p   *prom
+		err error
+	}
+	intents := map[int]intent{}
+	sawCtorResult := false
 	newProm := func() *prom {
-		p := &prom{id: len(proms), p: promise.NewPromise[int]()}
+		p := &prom{id: len(proms)}
+		if cs.PreRes != "" && (len(proms) == 0 || len(proms)%2 == 1) {
+			// constructed with its result: that result is the first one, every SetResult must lose
+			nextVal++
+			kind := cs.PreRes
+			if kind == "val" {
+				kind = ""
+			}
+			p.hasRes, p.val, p.err, p.trues = true, nextVal, errOf(kind, nextVal), 1
+			p.p = promise.NewPromiseWithResult(p.val, p.err)
+			intents[p.val] = intent{p, p.err}
+			sawCtorResult = true
+		} else {
+			p.p = promise.NewPromise[int]()
+		}
 		proms = append(proms, p)
 		return p
 	}
@@ -157,12 +181,6 @@ func body11(c *sched.Ctl, cs Case, v *ev.Verdict) {
 		single = newProm()
 	}
 	var awaiters []*awaiter
-	nextVal := 0
-	type intent struct {
-		p   *prom
-		err error
-	}
-	intents := map[int]intent{}
 	concurrentSetters, replacedDuringAwait, sentinelResult := false, false, false
 	settersInFlight := 0
 
@@ -537,6 +555,9 @@ func body11(c *sched.Ctl, cs Case, v *ev.Verdict) {
 	}
 	if sentinelResult {
 		v.Class("context-sentinel-as-result")
+	}
+	if sawCtorResult {
+		v.Class("promise-constructed-with-its-result")
 	}
 }
 
